@@ -93,6 +93,8 @@ def o_seq(case):
         cls.append("ubx-with-sync-bytes")
     if "nmea" in kinds:
         cls.append("has-nmea")
+    if case.get("long"):
+        cls.append("long-stream")
     if any(i.get("huge") for i in items):
         cls.append("ubx-length>=32767")
     if any(i["k"] == "frame" and len(i["b"]) == 16 for i in items):
@@ -131,7 +133,41 @@ def s_seq(draw, tier):
     return case
 
 
+def e_long(tier, shard, nshards):
+    """long well-formed streams: thousands of small items (a reader that recurses, or keeps per-frame state with an
+    eviction rule, only shows on long inputs)"""
+    from pv import framing as fr
+
+    n = 1500 if tier == "quick" else 12000
+    k = 0
+    for kind in ("frames", "mixed", "nmea-runs", "ubx-runs", "noise-runs"):
+        for stream in ("bytesio", "socket"):
+            k += 1
+            if k % nshards != shard:
+                continue
+            items = []
+            for j in range(n):
+                f = {"k": "frame", "b": fr.build_frame(bytes([0xFE, 0x80 | (j & 7), j & 0xFF, (j >> 8) & 0xFF])).hex(), "ident": "4072"}
+                if kind == "frames":
+                    items.append(f)
+                elif kind == "mixed":
+                    items.append([f, {"k": "nmea", "b": b"$GNGGA,%d*00\r\n".hex() if False else (b"$GNGGA," + str(j).encode() + b"*00\r\n").hex()}, {"k": "ubx", "b": (b"\xb5\x62\x01\x02\x02\x00" + bytes([j & 0xFF, 0xD3]) + b"\x00\x00").hex()}][j % 3])
+                elif kind == "nmea-runs":
+                    items.append({"k": "nmea", "b": (b"$GPGSV," + str(j).encode() + b"\r\n").hex()} if j % 50 else f)
+                elif kind == "ubx-runs":
+                    items.append({"k": "ubx", "b": (b"\xb5\x62\x01\x02\x01\x00" + bytes([j & 0xFF]) + b"\x00\x00").hex()} if j % 50 else f)
+                else:
+                    items.append({"k": "noise", "b": bytes([1 + j % 30]).hex()} if j % 50 else f)
+            case = {"items": items, "stream": stream, "parsed": True, "qoe": 2, "long": n}
+            if stream == "socket":
+                case["bufsize"] = 4096
+                case["cuts"] = list(range(1000, sum(len(i["b"]) // 2 for i in items), 1000))
+            yield case
+
+
 def _sample(c):
+    if c.get("long"):
+        return {"long": c["long"], "stream": c["stream"], "items": f"{len(c['items'])} small items"}
     return {k: (v if k != "items" else [{**i, "b": i["b"][:48] + ("..." if len(i["b"]) > 48 else "")} for i in v]) for k, v in c.items()}
 
 
@@ -140,9 +176,10 @@ SUBS = [
         "wellformed_sequences",
         o_seq,
         strategy=s_seq,
+        enum=e_long,
         examples=(150, 4000),
         rule="see property rule",
-        need={"ubx-length>=32767": 1, "two-byte-payload-frame": 1, "zero-length-frame": 1, "has-1023-frame": 1, "ubx-with-sync-bytes": 1, "socket": 1, "buffered": 1, "qoe2": 1},
+        need={"long-stream": 1, "ubx-length>=32767": 1, "two-byte-payload-frame": 1, "zero-length-frame": 1, "has-1023-frame": 1, "ubx-with-sync-bytes": 1, "socket": 1, "buffered": 1, "qoe2": 1},
         sample=_sample,
     ),
 ]
